@@ -277,7 +277,8 @@ def coq_terms(c) -> list:
     x = stop handling of empty sequences / alignments (C12-2, C12-3).  The d variants are only
     evaluated from 256 codons on (below, theorem translate_dtype_pinned_guarded says they coincide)."""
     k = c["k"]
-    b = cbool
+    if c.get("nomodel"):
+        return []
     if k == "getitem":
         return [("", f"CGetItem {V(c['v'])} {zlit(c['id'])} {zstr(c['codon'])}")]
     if k == "codontable":
@@ -473,7 +474,10 @@ def exhaustive_block(tier, widen=False):
         for n in (3 * 65535, 3 * 65536, 3 * 65536 + 2):
             for v in VS:
                 cases.append(dict(k="translate", v=v, id=1, unit=unit, n=n, start=0, minus=False, block="dtype-boundary"))
-        cases.append(dict(k="translate", v="new", id=1, unit=unit, n=3 * 65536 + 1, start=1, minus=True, block="dtype-boundary"))
+        # minus strand at the uint32 boundary: Coq's quadratic List.rev makes the model too slow here, so this case is
+        # oracle-only (start 0, length 0 mod 3: the frame label of finding C12-1 coincides)
+        cases.append(dict(k="translate", v="new", id=1, unit=unit, n=3 * 65536, start=0, minus=True, nomodel=True,
+                          block="dtype-boundary"))
         cases.append(dict(k="allframes", v="new", id=1, unit=unit, n=30000, block="dtype-boundary"))
     # complement / rc on every printable symbol, every table
     for v in VS:
@@ -757,6 +761,18 @@ def norm_sixframes(c, x):
 KEY_DTYPE = "new-gc:kmer-index-dtype"
 
 
+def dtype_pattern(c, exp, ir):
+    """closed form of the pre-repair index dtype (C12-4) for one translate call, used where the Coq model
+    is too slow: w bytes per codon reach bytes.translate, the w-1 zero bytes translate like index 0
+    (TTT on the plus strand, its reverse complement AAA on the minus strand)"""
+    if not (isinstance(exp, str) and isinstance(ir, str) and exp):
+        return False
+    ncod = len(exp)
+    w = 1 if ncod < 2 ** 8 else 2 if ncod < 2 ** 16 else 4
+    pad = ncbi_lookup(c["id"], "AAA" if c["minus"] else "TTT") * (w - 1)
+    return w > 1 and ir == "".join((pad + a) if c["minus"] else (a + pad) for a in exp)
+
+
 def keys_for(c, tag, bad_idx, ir):
     """violation keys of an observation that equals the model variant `tag` (one key per missing repair)"""
     out = []
@@ -825,6 +841,9 @@ def compare(rep, cases, impl, model):
                 keys = keys_for(c, tag, bad, ir)
                 for key in keys:
                     npinned[key] = npinned.get(key, 0) + 1
+            elif main is None and c.get("nomodel") and c["k"] == "translate" and dtype_pattern(c, exp, ir):
+                tag, keys = "d (closed form)", [KEY_DTYPE]
+                npinned[KEY_DTYPE] = npinned.get(KEY_DTYPE, 0) + 1
             else:
                 tag, alt = None, None
                 keys = [gettrans_key(c, bad, ir) if c["k"] == "gettrans" else classify(c, bad)]
